@@ -445,7 +445,7 @@ func Run(c *core.Ctx, pool *gjs.Pool) {
 	}
 
 	// 1. the model: enumerate, check the definitions, emit predictions
-	ncodes := c.Pick(140, 2600)
+	ncodes := c.Pick(140, 1400)
 	if v := os.Getenv("C10_N"); v != "" { // development aid
 		fmt.Sscanf(v, "%d", &ncodes)
 	}
